@@ -220,6 +220,11 @@ def check_property(pid, tier, seed):
     jdump(ev, os.path.join(EVIDENCE, f"{pid}.json"))
     for f, k in known_hits:
         print(f"KNOWN-FINDING: property={pid} {f.obligation} [{k.get('id', '')}] {k.get('input', '')}")
+    # open findings whose failing call site lies outside every unit (no obligation to match): listed on every run,
+    # they suppress nothing
+    for k in load_known():
+        if k.get("status") == "open" and k.get("kind") == "call-site" and (k.get("property") == pid or pid in k.get("also", [])):
+            print(f"KNOWN-FINDING: property={pid} {k.get('call_site', '')} [{k.get('id', '')}] {k.get('input', '')}")
     if undecided:
         for x in undecided:
             print(f"UNDECIDED property={pid}: {x}")
